@@ -100,6 +100,22 @@ Theorem C16_no_panic : forall cfg tr, 0 <= cfg_ttl cfg -> (cm_nclose tr <= 1)%na
 Proof. exact no_panic. Qed.
 Print Assumptions C16_no_panic.
 
+(* Closing the manager while PeerDisappeared messages are still queued in its handler goroutine:
+   whichever of them the handler still takes before the stop flag is set ([pre]: full Restart, any
+   Start outcomes), whichever after it ([post]: the Restart's Register returns at once, so only the
+   Unregister half happens) and whichever are dropped - i.e. under every schedule of Close()
+   against the handler - there is no panic (no adapter is stopped twice or without having been
+   started), and afterwards the registry is empty and nothing is started or listed.  That Close()
+   also *returns* under these schedules is checked on the implementation (C16clamgrconc), not
+   proved: the model has no blocking operations. *)
+Theorem C16_close_concurrent : forall cfg tr pre post, 0 <= cfg_ttl cfg -> cm_nclose tr = 0%nat ->
+  let st' := cm_conc_close cfg (cm_run cfg tr) pre post in
+  st_panic st' = false /\ st_closed st' = true /\ st_reg st' = []
+  /\ (forall id, cm_started (st_log st') id = false)
+  /\ cm_senders cfg st' = [] /\ cm_receivers cfg st' = [].
+Proof. exact close_concurrent. Qed.
+Print Assumptions C16_close_concurrent.
+
 (* ---------------- non-vacuity ---------------- *)
 (* cm_ex_perm: budget 1, one permanent sender+receiver; cm_ex_nonperm n: budget n, one non-permanent
    sender; cm_fr: the oracle "Start fails, retry" (Model/ClaMgr.v) *)
@@ -141,4 +157,13 @@ Proof. vm_compute. repeat split; reflexivity. Qed.
 (* the hypothesis of C16_no_panic is needed: a second Manager.Close panics *)
 Example C16_ex_second_close :
   st_panic (cm_run cm_ex_perm [(EClose, []); (EClose, [])]) = true.
+Proof. vm_compute. reflexivity. Qed.
+
+(* Close() against two queued peer-loss messages: the first is still handled as a restart, the
+   second after the stop flag was set (the adapter is only stopped); nothing is stopped twice *)
+Example C16_ex_close_concurrent :
+  let cfg := mkCfg 3 [mkAd 7%N false RSender 1%N 2%N; mkAd 8%N true RReceiver 3%N 4%N] in
+  let st := cm_run cfg [(ERegister 0%nat, [SOk; SOk]); (ERegister 1%nat, [SOk; SOk])] in
+  st_log (cm_conc_close cfg st [(0%nat, [SOk; SOk])] [1%nat])
+  = [CStart 0%nat SOk; CStart 1%nat SOk; CClose 0%nat; CStart 0%nat SOk; CClose 1%nat; CClose 0%nat].
 Proof. vm_compute. reflexivity. Qed.
